@@ -45,6 +45,20 @@ CHECKS["C12"] = {
     "assumptions": ["keys installed with SetSymmetricKey after a cleartext prefix exchange", _SAMPLING],
 }
 
+_REAL_SEC = ["security.Authenticator (negotiation, CLAIMTOBE, TOKEN/IDTOKENS, ECDH, key derivation, session cache)", "stream.Stream", "message.Message + ClassAd codec", "Go crypto/ecdh, crypto/aes, x/crypto/hkdf"]
+
+CHECKS["C10"] = {
+    "level": "exploration",
+    "technique": _TECH + ": two real endpoints over the simulated network for every cell of the policy matrix; independently written decision table as oracle",
+    "level_text": "Exhaustive over configurations, sampled over transport schedules: every cell of the 4^4 (client/server authentication x encryption level) matrix x 8 method-list shapes (equal, overlapping in different orders, disjoint, empty on either side, unimplemented method first, token listed but not held, token held) x cipher lists (common / none) x command present or auth-only is run as a real client handshake against a real server handshake inside the simulator with drawn segmentation/latency/short reads/window; the oracle is a decision table written from the property statement: which cells must fail (with an explicit denial, not a bare close), which must authenticate, which must encrypt, and that both ends report the same authentication and encryption outcome, session id and key and can exchange a message each way at once. Cells the statement leaves open pass with either outcome as long as the ends agree.",
+    "level_note": "Only CLAIMTOBE and TOKEN are used as methods (SSL halves do not interoperate, FS touches the real /tmp, SCITOKENS/KERBEROS need external services). Cells whose classification depends on reading 'supported' as 'listed' vs 'usable' are agreement-only.",
+    "budget": {"quick": 40, "thorough": 600},
+    "rule": "a case is one cell of the configuration matrix run as two real handshakes plus a ping/pong exchange under a drawn transport configuration; distinct = distinct event-log hash; non-trivial = the scheduler had a choice.",
+    "real": _REAL_SEC,
+    "stub": _SIM + ["credential files (in-memory CredentialReader)", "pid/hostname in session ids (verif hook)"],
+    "assumptions": ["one transport schedule per cell per seed (thorough iterates seeds)", _SAMPLING],
+}
+
 CHECKS["C15"] = {
     "level": "exploration",
     "technique": _TECH + ": hand-off (export, discard stream, import around a new conn on the same pipes) as a generated restart operation inside bidirectional traffic; blob truncations/corruptions enumerated",
